@@ -52,7 +52,8 @@ CHARSETS = ['latin1', 'ascii', 'utf-8', 'utf-16', 'utf-16-le', 'cp1252', 'cp437'
             'koi8-r', 'shift_jis', 'euc-jp', 'gb2312', 'big5', 'utf-32', 'utf-8-sig']
 CANDIDATES = (list(range(0x20, 0x7F)) + list(range(0xA0, 0x100)) + list(range(0x391, 0x3CA))
               + list(range(0x410, 0x450)) + list(range(0x3041, 0x3094)) + list(range(0x30A1, 0x30F7))
-              + list(range(0x4E00, 0x4E80)) + list(range(0x2500, 0x2520)) + [0x20AC, 0x2122, 0x152, 0x160])
+              + list(range(0x4E00, 0x4E80)) + list(range(0x2500, 0x2520)) + [0x20AC, 0x2122, 0x152, 0x160]
+              + [0x0301, 0x0308, 0x0327, 0x2126, 0x212B, 0xF900, 0xFA10, 0x1E9B, 0x3099, 0xFB01, 0x00C5, 0x03A9])
 MODULES = [mido.midifiles.midifiles, mido.midifiles.meta, mido.midifiles.tracks,
            mido.messages.messages, mido.messages.decode, mido.messages.encode,
            mido.messages.checks, mido.messages.specs]
@@ -79,8 +80,19 @@ def alphabet(cs):
     return _alpha[cs]
 
 
+DECOMPOSED = ['e\u0301', 'A\u030a', '\u2126', '\u212b', '\u304b\u3099', 'o\u0308x', '\uf900', 'c\u0327']
+
+
 def rand_text(rng, cs, n=None):
     al = alphabet(cs)
+    if n is None and rng.random() < 0.15:
+        # text that Unicode normalisation would rewrite (combining marks, compatibility characters)
+        for cand in rng.sample(DECOMPOSED, len(DECOMPOSED)):
+            try:
+                if cand.encode(cs).decode(cs) == cand:
+                    return cand + rng.choice(('', 'z', cand))
+            except UnicodeError:
+                continue
     n = rng.choice((0, 1, 2, 5, 12, 40)) if n is None else n
     # prefer non-ASCII so that the charset matters
     hi = [c for c in al if ord(c) > 127] or al
